@@ -7,6 +7,9 @@
      src/CppUTest/TestResult.cpp/.h        the six counters, isFailure
      src/CppUTest/TestOutput.cpp           printTestsEnded (as a structured summary; the time is not modelled)
      src/CppUTest/CommandLineTestRunner.cpp runAllTests (repeat loop, returned value)
+     src/CppUTest/CommandLineArguments.cpp  setRepeatCount (what the number after -r means)
+   A program may behave differently from one repetition to the next (static state in a test or a plugin): scripted statements
+   and plugin failures can be conditional on the repetition number; [at_rep r] is the program as it behaves in repetition r.
    No proofs in this file. *)
 From Coq Require Import NArith ZArith Bool List.
 From CppUVerif Require Import gen.Gen_Common lib.CInt.
@@ -24,8 +27,26 @@ Record config := mkCfg { c_cli : bool;       (* true: CommandLineTestRunner::run
                          c_rethrow : bool;   (* UtestShell::rethrowExceptions_ (cli: absent -e / -ci) *)
                          c_filter : bool;    (* a name filter is installed that accepts exactly the tests with t_sel *)
                          c_runign : bool;    (* -ri *)
-                         c_repeat : N }.     (* -r<n>, cli only *)
-Record scenario := mkScn { s_cfg : config; s_tests : list test }.
+                         c_repeat : N }.     (* the <n> of -r<n>, cli only; see eff_repeat *)
+
+(* repetition-dependent programs.  What a test does may depend on how often it has run before (a static counter in the test, a
+   plugin that only complains the first time, ...).  r = number of repetitions completed before this one = loopCount - 1. *)
+Inductive rcond := REq (k : N) | RNe (k : N) | RLt (k : N) | RGe (k : N).
+Definition holds (c : rcond) (r : N) : bool :=
+  match c with REq k => (r =? k)%N | RNe k => negb (r =? k)%N | RLt k => (r <? k)%N | RGe k => (k <=? r)%N end.
+Inductive rstmt := RS (x : stmt) | RIf (c : rcond) (x y : stmt).          (* RIf c x y: behaves as x in the repetitions where c holds, as y in the others *)
+Inductive rline := RL (l : N) | RLIf (c : rcond) (l : N).                  (* plugin failure at line l: always / only in the repetitions where c holds *)
+Record rtest := mkRTest { rt_ignored : bool; rt_sel : bool; rt_line : N;
+                          rt_setup : list rstmt; rt_body : list rstmt; rt_teardown : list rstmt;
+                          rt_pre : list rline; rt_post : list rline }.
+Definition stmt_at (r : N) (x : rstmt) : stmt := match x with RS a => a | RIf c a b => if holds c r then a else b end.
+Definition lines_at (r : N) (l : list rline) : list N :=
+  flat_map (fun x => match x with RL a => [a] | RLIf c a => if holds c r then [a] else [] end) l.
+Definition at_rep (r : N) (t : rtest) : test :=
+  mkTest (rt_ignored t) (rt_sel t) (rt_line t) (map (stmt_at r) (rt_setup t)) (map (stmt_at r) (rt_body t)) (map (stmt_at r) (rt_teardown t))
+         (lines_at r (rt_pre t)) (lines_at r (rt_post t)).
+Definition prog_at (r : N) (l : list rtest) : list test := map (at_rep r) l.
+Record scenario := mkScn { s_cfg : config; s_tests : list rtest }.
 
 (* ------------------------------------------------------------------ observations *)
 Record event := mkEv { e_test : N; e_phase : N; e_idx : N; e_depth : Z }.    (* one executed statement; phase 0/1/2 *)
@@ -192,16 +213,23 @@ Definition rep_obs_of (cfg : config) (s : st) (o : outcome) : rep_obs :=
         (if is_normal o then Some (mk_summary (cn s)) else None)
         (if c_cli cfg then None else Some (cn s)).
 
-(* CommandLineTestRunner::runAllTests, the repeat loop *)
-Fixpoint runner_loop (exc : bool) (cfg : config) (tests : list test) (n : nat) (s : st) (ft fe : N) : list rep_obs * st * N * N * outcome :=
+(* CommandLineArguments::setRepeatCount: repeat_ = AtoI(text after -r); if (0 == repeat_) repeat_ = 2;   ("-r" alone and "-r0" repeat twice) *)
+Definition eff_repeat (n : N) : N := if (n =? 0)%N then 2%N else n.
+
+(* CommandLineTestRunner::runAllTests, the repeat loop:
+     while (loopCount++ < repeatCount) { TestResult tr(output); registry_->runAllTests(tr);
+                                         failedTestCount += tr.getFailureCount(); if (tr.isFailure()) failedExecutionCount++; }
+   n = repetitions still to do, loop = repetitions done (= loopCount - 1 inside the body); every repetition gets a fresh TestResult
+   (run_rep), the two accumulators live across the repetitions. *)
+Fixpoint runner_loop (exc : bool) (cfg : config) (tests : list rtest) (n : nat) (loop : N) (s : st) (ft fe : N) : list rep_obs * st * N * N * outcome :=
   match n with
   | O => ([], s, ft, fe, ONormal)
   | S n' =>
-      let '(s1, o) := run_rep exc cfg tests s in
+      let '(s1, o) := run_rep exc cfg (prog_at loop tests) s in
       let r := rep_obs_of cfg s1 o in
       match o with
       | ONormal =>
-          let '(rs, s2, a, b, o2) := runner_loop exc cfg tests n' s1 (ft + k_fail (cn s1))%N (if is_failure (cn s1) then fe + 1 else fe)%N in
+          let '(rs, s2, a, b, o2) := runner_loop exc cfg tests n' (loop + 1)%N s1 (ft + k_fail (cn s1))%N (if is_failure (cn s1) then fe + 1 else fe)%N in
           (r :: rs, s2, a, b, o2)
       | _ => ([r], s1, ft, fe, o)
       end
@@ -213,10 +241,10 @@ Definition st0 : st := mkSt 0 false None czero [].
 Definition run_from (exc : bool) (scn : scenario) (s0 : st) : obs * st :=
   let cfg := s_cfg scn in
   if c_cli cfg then
-    let '(rs, s, ft, fe, o) := runner_loop exc cfg (s_tests scn) (N.to_nat (c_repeat cfg)) s0 0%N 0%N in
+    let '(rs, s, ft, fe, o) := runner_loop exc cfg (s_tests scn) (N.to_nat (eff_repeat (c_repeat cfg))) 0%N s0 0%N 0%N in
     (mkObs (negb (is_normal o)) (if is_normal o then Some (exit_value ft fe) else None) rs, s)
   else
-    let '(s, o) := run_rep exc cfg (s_tests scn) s0 in
+    let '(s, o) := run_rep exc cfg (prog_at 0%N (s_tests scn)) s0 in
     (mkObs (negb (is_normal o)) None [rep_obs_of cfg s o], s).
 Definition run (exc : bool) (scn : scenario) : obs := fst (run_from exc scn st0).
 
@@ -291,24 +319,38 @@ Definition rep_ok (cfg : config) (ts : list (N * test)) (r : rep_obs) : bool :=
   && match r_counters r with Some k => cnt_eqb k c | None => true end.
 
 Definition has_throw (t : test) : bool := existsb is_throw (t_setup t ++ t_body t ++ t_teardown t).
+(* a throw statement somewhere in the program text, in whichever repetition it would be executed *)
+Definition rstmt_throws (x : rstmt) : bool := match x with RS a => is_throw a | RIf _ a b => is_throw a || is_throw b end.
+Definition rhas_throw (t : rtest) : bool := existsb rstmt_throws (rt_setup t ++ rt_body t ++ rt_teardown t).
+
+(* the repetitions: number j (from 0) runs the program as it behaves in repetition j *)
+Definition rep_index (n : N) : list N := map N.of_nat (seq 0 (N.to_nat n)).
+Definition rep_tests (scn : scenario) (j : N) : list (N * test) := number 0%N (prog_at j (s_tests scn)).
+Definition rep_want (scn : scenario) (j : N) : cnt := rep_counts (s_cfg scn) (rep_tests scn j).
+Fixpoint reps_ok (scn : scenario) (j : N) (l : list rep_obs) : bool :=
+  match l with [] => true | r :: l' => rep_ok (s_cfg scn) (rep_tests scn j) r && reps_ok scn (j + 1)%N l' end.
+(* "that holds for every repetition": every one of the n repetitions had no failure and ran or ignored at least one test *)
+Definition every_rep_ok (scn : scenario) (n : N) : bool := forallb (fun j => rep_is_ok (rep_want scn j)) (rep_index n).
+Definition total_failures (scn : scenario) (n : N) : N := fold_right (fun j a => (k_fail (rep_want scn j) + a)%N) 0%N (rep_index n).
+
 Definition spec (scn : scenario) (o : obs) : bool :=
   let cfg := s_cfg scn in
-  let ts := number 0%N (s_tests scn) in
-  if c_rethrow cfg && existsb has_throw (s_tests scn) then true      (* outside the property's quantifier, see DESIGN C01 scope decision *)
+  let n := if c_cli cfg then eff_repeat (c_repeat cfg) else 1%N in
+  if c_rethrow cfg && existsb rhas_throw (s_tests scn) then true      (* outside the property's quantifier, see DESIGN C01 scope decision *)
   else
     negb (o_escaped o)
-    && (N.of_nat (length (o_reps o)) =? (if c_cli cfg then c_repeat cfg else 1))%N
-    && forallb (rep_ok cfg ts) (o_reps o)
+    && (N.of_nat (length (o_reps o)) =? n)%N
+    && reps_ok scn 0%N (o_reps o)                                      (* lifecycle, failures, true summary: of EACH repetition, for that repetition *)
     && (if c_cli cfg
         then match o_ret o with
-             | Some z => Bool.eqb (z =? 0) (rep_is_ok (rep_counts cfg ts) || (c_repeat cfg =? 0)%N)
+             | Some z => Bool.eqb (z =? 0) (every_rep_ok scn n)        (* zero iff EVERY repetition is OK *)
              | None => false
              end
         else is_none (o_ret o)).
 
 (* scenarios the theorems and the harness are about *)
 Definition valid (exc : bool) (scn : scenario) : bool :=
-  (exc || negb (existsb has_throw (s_tests scn)))
-  && negb (c_rethrow (s_cfg scn) && existsb has_throw (s_tests scn))
-  && (Z.of_N (c_repeat (s_cfg scn)) * Z.of_N (k_fail (rep_counts (s_cfg scn) (number 0%N (s_tests scn)))) <? 2 ^ 31)
+  (exc || negb (existsb rhas_throw (s_tests scn)))
+  && negb (c_rethrow (s_cfg scn) && existsb rhas_throw (s_tests scn))
+  && (Z.of_N (total_failures scn (eff_repeat (c_repeat (s_cfg scn)))) <? 2 ^ 31)
   && (Z.of_N (c_repeat (s_cfg scn)) <? 2 ^ 31).
